@@ -1078,7 +1078,7 @@ Definition step_fx (fx : fixes) (st0 : state) (ev : list Z) : state * list Z :=
       if c =? 1 then
         match a with
         | nts :: ncli :: flags =>
-            if negb (s_nts st =? 0) then (st, [-1]) else   (* the cell is set up once *)
+            if negb (s_nts st =? 0) || negb (match s_wops st with [] => true | _ => false end) then (st, [-1]) else   (* the cell is set up once, before any operation *)
             (set_cli (set_cur st (s_gen st) (Cluster.Model.zset (s_known st) (s_gen st) (map (fun i => Z.of_nat i + 1) (seq 0 (Z.to_nat nts)))) nts)
                      (s_wops st) (s_cache st) (s_lcache st)
                      (fst (fold_left (fun '(m, i) f => (Cluster.Model.zset m i (negb (f =? 0)), i + 1)) flags ([], 0))), [])
